@@ -8,8 +8,13 @@ for path in sorted(glob.glob(os.path.join(qv.VERIF, "checks", "c*.py"))):
     prop = os.path.splitext(os.path.basename(path))[0].upper()
     mod = qv.load_check(prop)
     C = getattr(mod, "CHECK", None)
-    for corr in ([C["correspondence"]] if C and C.get("correspondence") else getattr(mod, "RUNNERS", [])):
-        ok, msg = qv.build_model_runner(corr.get("name", prop), corr["extract"], corr["driver"], qv.coq_cone(corr["extract"]))
+    suites = []
+    if C and C.get("suites"):
+        suites = C["suites"]
+    elif C and C.get("correspondence"):
+        suites = [dict(C["correspondence"], name=prop.lower())]
+    for corr in suites:
+        ok, msg = qv.build_model_runner(corr.get("runner_name", prop + "_" + corr.get("name", prop.lower())), corr["extract"], corr["driver"], qv.coq_cone(corr["extract"]))
         print(f"{prop}: runner {'ok' if ok else 'FAILED'}")
         if not ok:
             print(msg[-2000:]); rc = 1
